@@ -33,16 +33,17 @@ def main():
     dirs = []
     ids = {}
     blind = {}
-    bl = os.path.join(VERIF, 'seeded', 'wave3_blind_evaluation.log')
-    if os.path.exists(bl):
-        for line in open(bl):
-            if line.startswith('seeded/_incoming3/') and ':' in line:
-                k, rest = line.split(':', 1)
-                k = k.split(' ')[0]
-                rest = rest.strip()
-                blind[os.path.join(VERIF, k)] = rest
-    # wave 1+2: ids Cxx-1..3; wave 3: ids Cxx-4, Cxx-5
-    for sub, offset, wave in (('_incoming', 0, '1-2'), ('_incoming3', 3, '3')):
+    for bl, pre in ((os.path.join(VERIF, 'seeded', 'wave3_blind_evaluation.log'), 'seeded/_incoming3/'),
+                    (os.path.join(VERIF, 'seeded', 'wave4_blind_evaluation.log'), 'seeded/_incoming4/')):
+        if os.path.exists(bl):
+            for line in open(bl):
+                if line.startswith(pre) and ':' in line:
+                    k, rest = line.split(':', 1)
+                    k = k.split(' ')[0]
+                    rest = rest.strip()
+                    blind[os.path.join(VERIF, k)] = rest
+    # wave 1+2: ids Cxx-1..3; wave 3: ids Cxx-4, Cxx-5; wave 4: ids Cxx-6, Cxx-7
+    for sub, offset, wave in (('_incoming', 0, '1-2'), ('_incoming3', 3, '3'), ('_incoming4', 5, '4')):
         inc = os.path.join(VERIF, 'seeded', sub)
         if not os.path.isdir(inc):
             continue
